@@ -157,6 +157,26 @@ impl Scenario for Events {
         let mod_bias = *rng.pick(&[20u64, 50, 80]);
         // stratum: one ordinary key and one modifier state region get over-sampled
         let focus_key = ((run / 4) % NKEYS as u64) as u8;
+        // swarm: a third of the sessions use only a handful of ordinary keys and modifiers,
+        // which makes specific orderings among few keys common
+        let few_keys: Option<Vec<u8>> = if rng.chance(1, 3) {
+            let mut v = vec![focus_key];
+            for _ in 0..rng.range(1, 5) {
+                v.push(rng.below(NKEYS as u64) as u8);
+            }
+            Some(v)
+        } else {
+            None
+        };
+        let few_mods: Option<Vec<u8>> = if few_keys.is_some() && rng.bool() {
+            let mut v = Vec::new();
+            for _ in 0..rng.range(1, 4) {
+                v.push(kidx(*rng.pick(&MOD_KEYS)) as u8);
+            }
+            Some(v)
+        } else {
+            None
+        };
         let mut ops: Vec<TOp> = Vec::new();
         let mut held: Vec<u8> = Vec::new();
         let mut t = 0u64;
@@ -215,6 +235,17 @@ impl Scenario for Events {
                 ops.push(TOp { t, op: Op::Clear });
                 continue;
             }
+            // a jammed or unplugged line while keys may be held: the same rejected word over and
+            // over, sometimes for a minute (past the 16-bit mark)
+            if wire_ok && faulty && rng.chance(1, 60) {
+                let w = if rng.bool() { 0x7FF } else { 0x000 };
+                let via = if rng.bool() { Via::Bit } else { Via::Word };
+                let n = if rng.chance(1, 40) { rng.range(65_530, 66_200) } else { rng.range(2, 40) };
+                for _ in 0..n {
+                    ops.push(TOp { t, op: Op::Noise { word: w, via } });
+                }
+                continue;
+            }
             if faulty {
                 // event-level faults
                 match rng.below(4) {
@@ -241,6 +272,42 @@ impl Scenario for Events {
                     }
                 }
             }
+            // drumming: the same key tapped again and again, mostly a few taps, sometimes dozens
+            if rng.chance(1, 50) {
+                let k = if rng.chance(1, 2) { kidx(*rng.pick(&MOD_KEYS)) as u8 } else { rng.below(NKEYS as u64) as u8 };
+                if !held.contains(&k) {
+                    let taps = if rng.chance(1, 4) { rng.range(10, 45) } else { rng.range(2, 6) };
+                    for _ in 0..taps {
+                        ops.push(TOp { t, op: Op::Ev { key: k, st: 1 } });
+                        t += rng.range(20, 120) * MS;
+                        ops.push(TOp { t, op: Op::Ev { key: k, st: 0 } });
+                        t += rng.range(20, 200) * MS;
+                    }
+                    // ... and then straight on to another key
+                    if rng.bool() {
+                        ops.push(TOp { t, op: Op::Ev { key: rng.below(NKEYS as u64) as u8, st: 1 } });
+                    }
+                    continue;
+                }
+            }
+            // entering a character by its code: Alt held, three or four keypad digits, Alt released
+            if rng.chance(1, 150) {
+                let alt = kidx(if rng.chance(3, 4) { KeyCode::LAlt } else { KeyCode::RAltGr }) as u8;
+                let digits = [KeyCode::Numpad0, KeyCode::Numpad1, KeyCode::Numpad2, KeyCode::Numpad3, KeyCode::Numpad4, KeyCode::Numpad5, KeyCode::Numpad6, KeyCode::Numpad7, KeyCode::Numpad8, KeyCode::Numpad9];
+                ops.push(TOp { t, op: Op::Ev { key: alt, st: 1 } });
+                let n = rng.range(3, 4);
+                for j in 0..n {
+                    let d = if j == 0 && rng.bool() { KeyCode::Numpad0 } else { *rng.pick(&digits[..if j == 0 { 3 } else { 10 }]) };
+                    t += rng.range(50, 300) * MS;
+                    ops.push(TOp { t, op: Op::Ev { key: kidx(d) as u8, st: 1 } });
+                    if rng.chance(9, 10) {
+                        ops.push(TOp { t: t + 40 * MS, op: Op::Ev { key: kidx(d) as u8, st: 0 } });
+                    }
+                }
+                t += rng.range(50, 300) * MS;
+                ops.push(TOp { t, op: Op::Ev { key: alt, st: 0 } });
+                continue;
+            }
             let release = !held.is_empty() && (held.len() >= 6 || rng.chance(40, 100));
             if release {
                 let j = rng.below(held.len() as u64) as usize;
@@ -253,8 +320,13 @@ impl Scenario for Events {
                 // usually a few repeats; now and then somebody leans on the key for half a minute
                 let reps = if !rng.chance(1, 200) {
                     rng.range(1, 3)
-                } else if rng.chance(1, 50) {
-                    rng.range(65_530, 65_600) // a book on the keyboard: past the 16-bit mark
+                } else if rng.chance(1, 25) {
+                    // a book on the keyboard: past the 16-bit mark, now and then past 2^18 and 2^20
+                    match rng.below(24) {
+                        0 => rng.range(1_048_570, 1_048_600),
+                        1..=4 => rng.range(262_140, 262_200),
+                        _ => rng.range(65_530, 66_200),
+                    }
                 } else if rng.bool() {
                     rng.range(250, 262) // right around the mark where 8-bit bookkeeping would wrap
                 } else {
@@ -267,7 +339,12 @@ impl Scenario for Events {
                 continue;
             }
             let k: u8 = if rng.chance(mod_bias, 100) {
-                kidx(*rng.pick(&MOD_KEYS)) as u8
+                match &few_mods {
+                    Some(v) => *rng.pick(v),
+                    None => kidx(*rng.pick(&MOD_KEYS)) as u8,
+                }
+            } else if let Some(v) = &few_keys {
+                *rng.pick(v)
             } else if rng.chance(1, 3) {
                 focus_key
             } else {
@@ -602,13 +679,13 @@ impl Scenario for Events {
                                 }
                             }
                             let matching = asked.iter().find(|a| {
-                                a.recorder == rec_id && a.key == k && a.mods == live && a.map == mode && r == Some(DecodedKey::Unicode(char::from_u32(a.token).unwrap_or('\u{0}')))
+                                a.recorder == rec_id && a.key == k && a.mods == live && a.map == mode && r == Some(a.answer)
                             });
                             let ok = real_layouts || matching.is_some() || (lenient_key(k) && r == Some(DecodedKey::RawKey(k)));
                             if !ok {
                                 let asked_txt: Vec<String> = asked
                                     .iter()
-                                    .map(|a| format!("recorder#{} asked ({}, [{}], map={}) -> U+{:04X}", a.recorder, kname(a.key), mods_show(&a.mods), a.map as u8, a.token))
+                                    .map(|a| format!("recorder#{} asked ({}, [{}], map={}) -> {}", a.recorder, kname(a.key), mods_show(&a.mods), a.map as u8, decoded_show(&Some(a.answer))))
                                     .collect();
                                 fail!(
                                     'ops,
